@@ -38,6 +38,9 @@ CLAIMED = {
     "C06": ("PARTIAL proof + exact correspondence. Proved for every well-formed MDP: the per-device scan (carried vector, masked scatter, padding rows, ANY resolution order of duplicate scatter indices) outputs exactly the block Gauss-Seidel values and padding never influences a real state; undoing the permutation with argsort restores natural order for every permutation; for EVERY partition the block Gauss-Seidel operator is a gamma-contraction (one-sided form) with exactly the fixed points of synchronous VI, hence the C01 max_diff bounds for every partition/permutation. Not proved: the composition of the device scan with the prepare/unbatch positions into one statement about the whole sweep (named in Props/C06.v); that composition is exercised exactly: every sweep is compared bit-for-bit with the model (both scatter orders) and with an independent block Gauss-Seidel driven by the recorded permutation, permutations are checked to be permutations, redrawn per sweep, equal to the documented seeded draw, and reproducible.",
             "Coq 8.16.1 kernel; scan/scatter hand-modelled (Model/SemiAsync.v) tied by per-sweep correspondence; jax.random.permutation is an oracle (input of the model) checked by recomputation; hook MDPAX_VERIF=1 records the permutation (fallback: documented key splitting).",
             "Coq proof (device scan = block Gauss-Seidel; contraction/fixed points for every partition) + per-sweep bit-exact correspondence with recorded permutations", "6 C06"),
+    "C17": ("For every problem whose successors are in range: P[a,s,s'] is the total probability of the events leading to s' (several events accumulate), R[s,a] the expected immediate reward, row sums equal the event-probability sums, an error is returned iff some row deviates from one by more than the tolerance (every tolerance) and names the first worst (action, state) pair, accepted rows sum to one and equal the raw entries when the row is a distribution, and the backup computed from (P, R) equals the functional backup for every value function. The builder is run against the kernel-evaluated model on generated problems with colliding successors and defective rows (exact comparison of P, R and of the named pair).",
+            "Coq 8.16.1 kernel; builder hand-modelled (Model/Matrices.v) tied by correspondence; vmap/scatter-add/unravel_index modelled by sums and first-argmax; float precision: x64 enabled first.",
+            "Coq proof (regrouping by successor, error decision) + exact differential check of the builder", "6 C17"),
 }
 
 man = {
